@@ -164,8 +164,8 @@ def cuboid(run, funcs, pid):
                 A = anchor.items[ax] - (width.items[ax] if trip else 0)
                 W = width.items[ax] * (3 if trip else 1)
                 mapped = 1 + (x - to_z3(ga.items[ax])) * to_z3(giw.items[ax])
-                vv, m = run.prove('%s axis %d: grid map of [A-W, A+2W] lies strictly inside (1,2) (real arithmetic)' % (tag, ax),
-                                  H + [x >= A - W, x <= A + 2 * W], z3.Not(z3.And(mapped > 1, mapped < 2)), timeout=30, cross=False, on_sat='caller')
+                vv, m = run.prove('%s axis %d: grid map of [A-W, A+2W] lies inside [1,2) (real arithmetic)' % (tag, ax),
+                                  H + [x >= A - W, x <= A + 2 * W], z3.Not(z3.And(mapped >= 1, mapped < 2)), timeout=30, cross=False, on_sat='caller')
                 if vv == 'sat':
                     pl = {'kind': 'gridmap', 'dim': dim, 'periodic': periodic, 'axis': ax,
                           'anchor': [float(engine.model_value(m, a_)) for a_ in anchor.items], 'width': [float(engine.model_value(m, w_)) for w_ in width.items],
